@@ -32,6 +32,18 @@ import Glom.Model.C20Env
   observation must pass `Arg.checkArg` against what the calls read alone; when the literal is flat
   the by-value reference `Arg.privRun` must agree with what the calls read alone, too.
   "spec_same" (all shared-spec cases): repr of the shared spec object after the calls == before.
+
+  Nested / re-entry cases carry the HISTORY OF THE ERROR OBJECTS as the harness saw it
+         "errhist":{"ops":[["render",e,text|null] | ["ucopy",src,dst,"carry"|"fresh"] |
+                           ["exit",lvl,e,out,"same"|"copy"|"wrap",class]…],
+                    "ref":[[lvl,call index]…]}
+  (e / src / dst / out: object identities in first-seen order; lvl: the glom() calls that ended with
+  an error, numbered in the order they ended; text: what the user's render returned, normalised like
+  the outcomes; "ref": which call of "threads" the glom() call lvl is — its "alone" outcome is the
+  message every render of its error must show).  The model (`Glom/Model/C20Err.lean`, with the
+  caches the CURRENT source has: extracted facts) replays the history; renders to which it gives
+  the same message term of a FINALIZED error must have returned the same string, and plain / full
+  must agree; the observation must pass `ErrM.checkErrHist`.
 -/
 namespace Glom.C20.Driver
 open Lean Glom.C20
@@ -201,6 +213,60 @@ def runArg (aj impl : Json) : Except String (Bool × Bool × Json) := do
   return (agree, holds, Json.mkObj [("reads", toJson mReads), ("lit_before", toJson mBefore), ("lit_after", toJson mAfter),
     ("flat", flat), ("reference", toJson refReads)])
 
+/-! ### the history of the error objects -/
+
+def errOpOfJson (j : Json) : Except String (ErrM.Op × Option (Option String)) := do
+  match ← arr j with
+  | [.str "render", e, .str t] => return (.render (← e.getNat?), some (some t))
+  | [.str "render", e, .null] => return (.render (← e.getNat?), some none)
+  | [.str "ucopy", a, b, .str k] =>
+    return (.ucopy (← a.getNat?) (← b.getNat?) (if k == "fresh" then .fresh else .carry), none)
+  | [.str "exit", l, e, o, .str k, .str cls] =>
+    let kind : ErrM.ExitKind := match k with
+      | "same" => .same
+      | "wrap" => .copy .fresh                                   -- `GlomError.wrap(e)`: a new wrapper object
+      | _ => .copy (if genErrFacts.freshCopy cls then .fresh else .carry)
+    return (.exit (← l.getNat?) (← e.getNat?) (← o.getNat?) kind, none)
+  | _ => throw s!"bad error op {j.compress}"
+
+def isFullText (s : String) : Bool := s.startsWith "error raised while processing"
+
+/-- (model agrees with the implementation, the observation passes `checkErrHist`, report) -/
+def runErrHist (hj : Json) (alone : List Out) : Except String (Bool × Bool × Json) := do
+  let decoded ← (← arr (← hj.getObjVal? "ops")).mapM errOpOfJson
+  let ops := decoded.map (·.1)
+  let iTexts : List (Option String) := decoded.filterMap (·.2)
+  let refTab ← (← arr (← hj.getObjVal? "ref")).mapM fun e => do
+    match ← arr e with
+    | [l, c] => return (← l.getNat?, ← c.getNat?)
+    | _ => throw s!"bad ref entry {e.compress}"
+  let aloneText (l : Nat) : Option String :=
+    match (dlookup l refTab).bind (fun c => alone[c]?) with
+    | some (.err _ t) => some t
+    | _ => none
+  let inDomain := ErrM.opsOK ops ⟨ErrM.RHeap.init, [], []⟩ []
+  let mTexts := (ErrM.run genErrFacts.cfg ops ⟨ErrM.Heap.init, []⟩).texts
+  let pairs := mTexts.zip iTexts
+  -- renders with the same message term returned the same string; plain / full as the model says.
+  -- (Only for finalized errors: the message of an error that is NOT finalized is `get_message()`, and
+  -- that of a CoalesceError / CheckError of the RUNNING call reads the live `scope[Path]` list, which
+  -- later chain steps of the same call extend in place — it is not a function of the history of the
+  -- error object, and no other call is involved.)
+  let isFull : ErrM.Text → Bool := fun t => match t with | .full _ _ _ _ => true | _ => false
+  let sameOk := pairs.all fun p => pairs.all fun q =>
+    match p.2, q.2 with
+    | some a, some b => !(p.1 == q.1) || !isFull p.1 || a == b
+    | _, _ => true
+  let kindOk := pairs.all fun p =>
+    match p.1, p.2 with
+    | .plain _, some a => !isFullText a
+    | .full _ _ _ _, some a => isFullText a
+    | _, _ => true
+  let agree := !inDomain || (mTexts.length == iTexts.length && sameOk && kindOk)
+  let holds := ErrM.checkErrHist ops iTexts aloneText
+  return (agree, holds, Json.mkObj [("in_domain", inDomain), ("renders", toJson (mTexts.map fun t => reprStr t)),
+    ("levels", toJson ((ErrM.renderLevels ops ⟨ErrM.RHeap.init, [], []⟩).map fun l => l.getD 0))])
+
 def run (j : Json) : Except String Json := do
   let max := genFacts.maxCache
   let tjs ← arr (← j.getObjVal? "threads")
@@ -237,7 +303,10 @@ def run (j : Json) : Except String Json := do
   let (argAgree, argHolds, argModel) ← (match j.getObjVal? "argsys" with
     | .ok aj => runArg aj impl
     | .error _ => pure (true, true, Json.null))
-  let holds := checkC20 alone obs && argHolds
+  let (errAgree, errHolds, errModel) ← (match j.getObjVal? "errhist" with
+    | .ok hj => runErrHist hj alone
+    | .error _ => pure (true, true, Json.null))
+  let holds := checkC20 alone obs && argHolds && errHolds
   let mPaths := sortStrs (sys.sh.pathCache.map (·.1))
   let iPaths := sortStrs (pc.map (·.1))
   let mTypes := sortStrs (dedup (sys.sh.typeCache.map fun e => e.1.1 ++ ":" ++ e.1.2))
@@ -269,7 +338,7 @@ def run (j : Json) : Except String Json := do
       | .err e _, _ => pure (false, Json.mkObj [("outcome", errClass errs e)])
     | .error _ => pure (true, Json.null))
   let agree := finished && mOutsV == iOuts && mPaths == iPaths && mTypes == iTypes && !deadlock && reAgree && argAgree
-    && specSame
+    && specSame && errAgree
   let nYield := (threads.map (fun t => countUser t.1)).foldl (· + ·) 0
   let anyErr := alone.any fun o => match o with | .err _ _ => true | _ => false
   let shape := if threads.any (fun t => t.1.any fun e => match e with | .nested _ _ => true | _ => false)
@@ -277,14 +346,29 @@ def run (j : Json) : Except String Json := do
     else if (j.getObjVal? "argsys").toOption.isSome then
       (if (j.getObjVal? "schedule").toOption.isSome then "shared-argument-scheduled" else "shared-argument")
     else if (j.getObjVal? "schedule").toOption.isSome then "scheduled" else "free"
+  -- did user code render an error that an enclosing call then re-finalized?
+  let errTag := match j.getObjVal? "errhist" with
+    | .ok hj => (match (hj.getObjVal? "ops").bind arr with
+      | .ok opsj =>
+        let kinds : List String := opsj.filterMap fun (o : Json) => match o with
+          | Json.arr a => (a[0]?).bind (fun x => x.getStr?.toOption)
+          | _ => none
+        let lastExit : Option Nat := (kinds.zipIdx.filter (fun (p : String × Nat) => p.1 == "exit")).getLast?.map (fun (p : String × Nat) => p.2)
+        let inflight := match lastExit with
+          | some i => (kinds.take i).contains "render"
+          | none => false
+        if inflight then "-inflight-render" else if kinds.contains "exit" then "-errhist" else ""
+      | .error _ => "")
+    | .error _ => ""
   return Json.mkObj [("agree", agree), ("holds", holds),
     ("model", Json.mkObj [("outs", Json.arr mOuts.toArray), ("paths", toJson mPaths), ("types", toJson mTypes),
-      ("reentry", reModel), ("argsys", argModel)]),
-    ("branch", s!"{shape}-{threads.length}threads-{if anyErr then "with-error" else "all-ok"}"),
+      ("reentry", reModel), ("argsys", argModel), ("errhist", errModel)]),
+    ("branch", s!"{shape}-{threads.length}threads-{if anyErr then "with-error" else "all-ok"}{errTag}"),
     ("yields", nYield),
     ("why", if holds then "" else if deadlock then "deadlock" else if iOuts != alone then "a call's outcome differs from its outcome alone"
       else if !specSame then "the spec object the calls share is not what it was before them"
       else if !argHolds then "a call read something else than alone through a shared argument, or the literal in the spec changed"
+      else if !errHolds then "a render of a call's error (inside the callable, further up, later, again) read another message than that call's error shows alone"
       else "a cache entry differs from a fresh parse / lookup")]
 
 end Glom.C20.Driver
